@@ -95,8 +95,40 @@ def judge(case, res):
 def main():
     import mutants
     names = sys.argv[1:]
+    jobs = 1
+    if '-j' in names:
+        i = names.index('-j')
+        jobs = int(names[i + 1])
+        del names[i:i + 2]
     cases = [c for c in mutants.CASES if not names or c['name'] in names or any(n in c['props'] for n in names)]
     bad = 0
+    if jobs > 1:
+        from concurrent.futures import ThreadPoolExecutor
+        import threading
+        core.build_driver()
+        slots = list(range(jobs))
+        lk = threading.Lock()
+
+        def one(c):
+            with lk:
+                i = slots.pop()
+            try:
+                t = time.time()
+                r = run_case(c, tag=f'stj-{i}', target=worker_target(i))
+                return c, r, time.time() - t
+            finally:
+                with lk:
+                    slots.append(i)
+        with ThreadPoolExecutor(jobs) as ex:
+            for c, res, dt in ex.map(one, cases):
+                verdict, why = judge(c, res)
+                print(f'{verdict:12s} {c["kind"]:7s} {c["name"]:45s} {dt:5.1f}s {why[:400]}', flush=True)
+                if verdict in ('MISSED', 'FALSE-ALARM'):
+                    bad += 1
+                    if res.get('failed'):
+                        print('      reported:', json.dumps(res['failed'])[:1500])
+        print(f'{len(cases)} cases, {bad} bad')
+        sys.exit(1 if bad else 0)
     for c in cases:
         t = time.time()
         res = run_case(c)
